@@ -1,8 +1,8 @@
 package rules
 
 import (
-	"go/constant"
 	"go/ast"
+	"go/constant"
 	"strings"
 
 	"verif/checker/eng"
